@@ -4722,24 +4722,34 @@ class Daemon(metaclass=JSONRPCServerType):
         """
         wallet = self.wallet_manager.get_wallet_or_default(wallet_id)
         accounts = [wallet.get_account_or_error(account_id)] if account_id else wallet.accounts
-        txos = await self.ledger.get_txos(
-            wallet=wallet, accounts=accounts, read_only=True,
-            no_tx=True, no_channel_info=True,
-            **self._constrain_txo_from_kwargs(
-                {}, is_not_spent=True, is_my_output=True, **kwargs
-            )
-        )
-        txs = []
-        while txos:
-            txs.append(
-                await Transaction.create(
-                    [Input.spend(txos.pop()) for _ in range(min(len(txos), batch_size))],
-                    [], accounts, accounts[0]
+        # choose + reserve under the same lock as every other transaction build (as Account.fund does)
+        async with self.ledger._utxo_reservation_lock:  # pylint: disable=protected-access
+            txos = await self.ledger.get_txos(
+                wallet=wallet, accounts=accounts, read_only=True,
+                no_tx=True, no_channel_info=True,
+                **self._constrain_txo_from_kwargs(
+                    {}, is_not_spent=True, is_my_output=True, **kwargs
                 )
             )
-        if not preview:
-            for tx in txs:
-                await self.broadcast_or_release(tx, blocking)
+            await self.ledger.reserve_outputs(txos)
+        txs, held = [], []
+        try:
+            while txos:
+                held.append(
+                    await Transaction.create(
+                        [Input.spend(txos.pop()) for _ in range(min(len(txos), batch_size))],
+                        [], accounts, accounts[0]
+                    )
+                )
+            txs = list(held)
+            while held and not preview:
+                await self.broadcast_or_release(held.pop(0), blocking)
+        finally:
+            # a preview, a batch that could not be built, one that was refused: what was chosen or built
+            # and is not going to be sent hands its outputs back
+            await self.ledger.release_outputs(txos)
+            for tx in held:
+                await self.ledger.release_tx(tx)
         if include_full_tx:
             return txs
         return [{'txid': tx.id} for tx in txs]
